@@ -1057,11 +1057,132 @@ fn tar_cases(g: &mut G, n: usize) {
 	}
 }
 
+/// documents of every text decoder with a 2/3/4-byte character straddling an ABSOLUTE byte offset B
+/// (buffers, error-context truncation, ring buffers are indexed from the start of the document, not
+/// from the error site): malformed with the error before and after B, and valid ones
+fn absolute_offsets(g: &mut G) {
+	const OFFS: &[usize] = &[16, 32, 64, 100, 128, 255, 256, 257, 512, 1000, 1024, 4096];
+	let chars: &[&str] = &["é", "€", "😀"];
+	for &b0 in OFFS {
+		for d in [-1i64, 0, 1] {
+			let b = (b0 as i64 + d) as usize;
+			for ch in chars {
+				let w = ch.len();
+				// the character starts at `start`, start < b < start + w
+				for start in (b + 1 - w)..b {
+					// (prefix, suffix variants) per decoder; the string content begins right after the prefix
+					let fill = |prefix: &str, tail: &str| -> Option<Vec<u8>> {
+						if start < prefix.len() {
+							return None;
+						}
+						let mut s = String::from(prefix);
+						s.push_str(&"a".repeat(start - prefix.len()));
+						debug_assert_eq!(s.len(), start);
+						s.push_str(ch);
+						s.push_str("bbbbbbbbbbbb");
+						s.push_str(tail);
+						Some(s.into_bytes())
+					};
+					let mut put = |g: &mut G, ep: &'static str, class: &'static str, v: Option<Vec<u8>>| {
+						if let Some(v) = v {
+							g.push(ep, class, v, if ep == "vplfile" { "1/0/0" } else { "" });
+						}
+					};
+					// JSON
+					for ep in ["json", "jsonstr"] {
+						put(g, ep, "abs-offset-valid", fill("[\"", "\"]"));
+						put(g, ep, "abs-offset-err-after", fill("[\"", "\" x"));
+						put(g, ep, "abs-offset-err-after", fill("[\"", ""));
+						put(g, ep, "abs-offset-err-before", fill("[x,\"", "\"]"));
+						put(g, ep, "abs-offset-err-after", fill("{\"k\":\"", "\",}"));
+					}
+					// TileJSON (well-formed JSON of the wrong shape as well)
+					put(g, "tilejson", "abs-offset-valid", fill("{\"name\":\"", "\"}"));
+					put(g, "tilejson", "abs-offset-err-after", fill("{\"name\":\"", "\" x"));
+					put(g, "tilejson", "abs-offset-err-before", fill("{\"bounds\":1 \"", "\"}"));
+					put(g, "tilejson", "abs-offset-err-after", fill("{\"bounds\":\"", "\"}"));
+					// CSV
+					for ep in ["csv", "buildcsv"] {
+						put(g, ep, "abs-offset-valid", fill("id,n\n1,", "\n"));
+						put(g, ep, "abs-offset-err-after", fill("id,n\n1,\"", "\"x\n"));
+						put(g, ep, "abs-offset-err-after", fill("id,n\n1,\"", ""));
+						put(g, ep, "abs-offset-err-before", fill("id,n\n\"1\"x,", "\n"));
+					}
+					// VPL
+					for ep in ["vpl", "build", "vplfile"] {
+						put(g, ep, "abs-offset-valid", fill("from_container filename=\"", "\""));
+						put(g, ep, "abs-offset-err-after", fill("from_container filename=\"", "\" |"));
+						put(g, ep, "abs-offset-err-after", fill("from_container filename=\"", ""));
+						put(g, ep, "abs-offset-err-before", fill("from_container = filename=\"", "\""));
+					}
+				}
+			}
+		}
+	}
+}
+
+/// nesting of source lists right at / beyond the limit of `parse_vpl`, AFTER lexically tricky text
+/// (the limit is enforced by a lexical pre-scan that tracks quotes and escapes)
+fn vpl_limit(g: &mut G, thorough: bool) {
+	let prefixes: &[&str] = &[
+		"",
+		"x=\"C:\\\\\"",
+		"x=\"\\\\\"",
+		"x=\"\\\\\\\\\"",
+		"x=\"\\\"\"",
+		"x=\"\\\\\\\"\"",
+		"x=\"a\\\"[\\\"b\"",
+		"x=\"[[[[\"",
+		"x=\"]]]]\"",
+		"x=\"\"",
+		"x=\"é\\\\\"",
+		"x=\"\\n\\t\\\\\"",
+		"x=a.b-c_d",
+		"x=[a,\"[\",\"\\\\\",b]",
+		"x=\"\\\\\" y=\"\\\\\"",
+		"x=\"\\\\\" y=\"[\"",
+	];
+	let nest = |prefix: &str, d: usize| -> Vec<u8> {
+		// node `a` with the property and `d` levels of source lists
+		let mut s = format!("a {prefix} [");
+		s.push_str(&"a[".repeat(d - 1));
+		s.push('a');
+		s.push_str(&"]".repeat(d));
+		s.into_bytes()
+	};
+	for p in prefixes {
+		for d in [1usize, 2, 63, 64] {
+			g.push("vpl", "nesting-limit-ok", nest(p, d), "");
+		}
+		for d in [65usize, 66, 100, 200] {
+			g.push("vpllimit", "nesting-limit", nest(p, d), "");
+			g.push("vpl", "nesting-limit", nest(p, d), "");
+		}
+		g.push("build", "nesting-limit", nest(p, 65), "");
+		g.push("vplfile", "nesting-limit", nest(p, 65), "1/0/0");
+		// the crash probe (child process): far beyond any stack
+		let deep = if thorough { 20000 } else { 5000 };
+		g.push("vpllimit", "nesting-deep", nest(p, deep), "");
+	}
+	// the tricky text inside the nesting as well
+	for p in prefixes.iter().skip(1) {
+		let mut s = String::new();
+		for _ in 0..65 {
+			s.push_str(&format!("a {p} ["));
+		}
+		s.push('a');
+		s.push_str(&"]".repeat(65));
+		g.push("vpllimit", "nesting-limit", s.into_bytes(), "");
+	}
+}
+
 pub fn generate(args: &Args) -> Vec<Case> {
 	let mut g = G { rng: Rng::new(args.seed), cases: vec![] };
 	let thorough = args.thorough();
 	json_utf8_sites(&mut g);
 	nesting(&mut g, thorough);
+	absolute_offsets(&mut g);
+	vpl_limit(&mut g, thorough);
 	tilejson_cases(&mut g, args.n(600, 10000));
 	text_cases(&mut g, args.n(3000, 80000));
 	mvt_cases(&mut g, args.n(800, 20000));
